@@ -163,3 +163,33 @@ impl StreamingBody {
             }
     { unimplemented!() }
 }
+
+// ---- TRUSTED: the multipart extractor's dependencies ----
+/// a stream of body data chunks, with the bound on the total number of bytes it can ever yield (None: unbounded)
+pub struct DataStream { pub frames: Ghost<Seq<FrameSpec>>, pub cap: Ghost<Option<usize>> }
+impl Body {
+    /// Body::into_data_stream (http-body-util): every data frame of the body, no bound
+    #[verifier::external_body]
+    pub fn into_data_stream(self) -> (r: DataStream) ensures r.frames@ == self.frames@, r.cap@ is None { unimplemented!() }
+}
+impl StreamingBody {
+    /// StreamingBody::into_stream: the contract PROVED of its generator block (into_stream_erased, this unit): it never
+    /// yields more than `cap` bytes in total -- here recorded as the stream's bound
+    #[verifier::external_body]
+    pub fn into_stream(self) -> (r: DataStream) ensures r.frames@ == self.body.frames@, r.cap@ == Some(self.cap) { unimplemented!() }
+}
+/// multer::Multipart::new(stream, boundary): a parser that reads the body ONLY through the stream it is given
+pub struct Multipart { pub source: DataStream, pub boundary: Ghost<Seq<char>> }
+impl Multipart {
+    #[verifier::external_body]
+    pub fn new(stream: DataStream, boundary: String) -> (r: Multipart) ensures r.source == stream, r.boundary@ == boundary@ { unimplemented!() }
+}
+pub uninterp spec fn boundary_text(ct: Seq<char>) -> Option<Seq<char>>;
+#[verifier::external_body]
+pub fn boundary_of(content_type: &str) -> (r: Option<&str>)
+    ensures (r is Some) == (boundary_text(content_type@) is Some), r is Some ==> r->Some_0@ == boundary_text(content_type@)->Some_0 { unimplemented!() }
+pub trait ToStringSame2 { fn to_string_(&self) -> String; }
+impl ToStringSame2 for str {
+    #[verifier::external_body]
+    fn to_string_(&self) -> (r: String) ensures r@ == self@ { unimplemented!() }
+}
